@@ -3602,11 +3602,14 @@ FILES_CR = [("Rules", "packages/accounts/src/smart_account/storage.rs", ["get_co
 STORE_CRW = {"RulesW": {"Meta": (["u32"], "MetaS"), "Signers": (["u32"], "Vec<Signer>"), "Policies": (["u32"], "Vec<Address>"),
                         "Ids": (["Val"], "Vec<u32>"), "NextId": ([], "u32"), "Count": ([], "u32"), "Fingerprint": (["Bytes32"], "bool")}}
 READS_CRW = {"RulesW": {"ledger_sequence": "u32",
-                        "compute_fingerprint": ("fn", ["Val", "Vec<Signer>", "Vec<Address>"], "Bytes32")}}
+                        "compute_fingerprint": ("fn", ["Val", "Vec<Signer>", "Vec<Address>"], "Bytes32"),
+                        "current_contract_address": "Address",
+                        "PolicyClient_try_uninstall": ("tryfn", ["Address", "ContextRule", "Address"], "()")}}
 FILES_CRW = [("RulesW", "packages/accounts/src/smart_account/mod.rs", []),
              ("RulesW", "packages/accounts/src/smart_account/storage.rs",
               ["get_context_rule", "validate_signers_and_policies", "validate_and_set_fingerprint",
-               "remove_fingerprint", "update_context_rule_name", "update_context_rule_valid_until", "add_signer", "remove_signer"])]
+               "remove_fingerprint", "update_context_rule_name", "update_context_rule_valid_until", "add_signer", "remove_signer",
+               "remove_context_rule"])]
 STORE_CLM = {"Claims": {"Claim": (["Bytes32"], "IdClaim"), "ClaimsByTopic": (["u32"], "Vec<Bytes32>")}}
 STRUCTS_CLM = {"IdClaim": [("topic", "u32"), ("scheme", "u32"), ("issuer", "Address"), ("signature", "Bytes"), ("data", "Bytes"), ("uri", "Val")]}
 READS_CLM = {"Claims": {"current_contract_address": "Address",
